@@ -71,7 +71,10 @@ QUERIES = TIMEQ + ['val2idx_nearest', 'val2idx_bounds', 'val2idx_exact', 'repr',
            'pncexpr_del', 'pncexpr_rename',
            # a variable reached through the file object in an expression (the only way to name a key that is no identifier);
            # index arrays with missing entries (what an exact lookup returns) handed to a pointwise selection
-           'eval_selfvar', 'pncexpr_ifilevar', 'slice_maskedidx']
+           'eval_selfvar', 'pncexpr_ifilevar', 'slice_maskedidx',
+           # unary operations on masked variables (numpy hands the operand's mask on to the result); merge of several files;
+           # a window of an IOAPI file whose grid origin is held as arrays
+           'eval_unary_mask', 'pncexpr_unary_mask', 'merge_views', 'ioapi_origarr']
 
 
 def _pure(rng):
@@ -125,7 +128,7 @@ def gen(rng, tier):
     # the functional helpers and the statements that write, on every run, on files that have coordinate variables
     for q in ('slice_dim', 'slice_dim_range', 'getvarpnc', 'pncrename', 'interpvars', 'extract_lonlat', 'eval_tuple', 'pncexpr_tuple',
               'eval_attrarr', 'pncexpr_attrarr', 'pncexpr_del', 'pncexpr_rename', 'eval_aug', 'pncexpr_aug', 'eval_selfvar',
-              'pncexpr_ifilevar', 'slice_maskedidx'):
+              'pncexpr_ifilevar', 'slice_maskedidx', 'eval_unary_mask', 'pncexpr_unary_mask', 'merge_views', 'ioapi_origarr'):
         spec = pfile.gen_file(rng, maxlen=3, coord_prob=1.0, scalar_prob=0.0)
         for v in spec['vars']:
             if v['dtype'] == 'f':
@@ -385,6 +388,52 @@ def _query(f, q, spec):
         if q == 'eval_selfvar':
             return f.eval("NEWVAR = self.variables['%s'][:]" % ks[0])
         return F.pncexpr("NEWVAR = ifile.variables['%s'][:]" % ks[0], f), ['NEWVAR']
+    if q in ('eval_unary_mask', 'pncexpr_unary_mask'):
+        # a file of its own: a masked variable; the result of a unary operation gets a missing cell more and a value where the
+        # input has none
+        h = pnc.PseudoNetCDFFile()
+        h.createDimension('t', 4)
+        m = h.createVariable('M', 'd', ('t',), fill_value=-999.)
+        m[:] = np.ma.masked_equal([3., -999., 2., 5.], -999.)
+        before = _snap(h)
+        for ex in ('NEWVAR = -M', 'NEWVAR = abs(M)', 'NEWVAR = np.ma.exp(M)'):
+            g = h.eval(ex) if q == 'eval_unary_mask' else F.pncexpr(ex, h)
+            g.variables['NEWVAR'][0] = np.ma.masked
+            g.variables['NEWVAR'][1] = 7.
+            d = _diffsnap(before, _snap(h))
+            if d:
+                raise lib.HarnessError('ARGCHANGED writing into the result of %s changed the input: %s' % (ex, d))
+        return None
+    if q == 'merge_views':
+        hs = []
+        for name, masked in (('A', False), ('B', True), ('C', False)):
+            h = pnc.PseudoNetCDFFile()
+            h.createDimension('t', 3)
+            v = h.createVariable(name, 'd', ('t',), **(dict(fill_value=-999.) if masked else {}))
+            v[:] = np.ma.masked_equal([3., -999., 2.], -999.) if masked else [3., 1., 2.]
+            v.units = 'm'
+            hs.append(h)
+        before = [_snap(h) for h in hs]
+        g = F.merge(hs)
+        for k in g.variables:
+            g.variables[k][0] = 100.
+            g.variables[k][2] = np.ma.masked if isinstance(g.variables[k], np.ma.MaskedArray) else -1.
+        for b, h in zip(before, hs):
+            d = _diffsnap(b, _snap(h))
+            if d:
+                raise lib.HarnessError('ARGCHANGED writing into the result of merge changed an input: %s' % d)
+        return None
+    if q == 'ioapi_origarr':
+        h, _ = c10.build(dict(kind='arrays', lv=[64, 55, 22, 5], name16=False, nc=4, nl=2, nr=3, nt=2, nv=1, owntflag=False,
+                              sdate=2019365, stime=220000, tstep=10000, withcf=False))
+        h.XORIG = np.array(float(h.XORIG))
+        h.YORIG = np.array([float(h.YORIG)])
+        before = _snap(h)
+        h.sliceDimensions(ROW=slice(1, 3), COL=slice(2, 4))
+        d = _diffsnap(before, _snap(h))
+        if d:
+            raise lib.HarnessError('ARGCHANGED a window of an IOAPI file changed its receiver: %s' % d)
+        return None
     if q == 'slice_maskedidx':
         # a file of its own: a masked variable with a missing cell, two coordinates; the second index array comes from an exact
         # lookup of values that are partly no coordinate values (a masked integer array)
